@@ -4,7 +4,7 @@ import re
 import common
 from common import cq_bytes, cq_list
 
-THEOREMS = ["c05_history_independent", "c05_repeat_same"]
+THEOREMS = ["c05_history_independent", "c05_repeat_same", "c05_ku_eku_table_order", "c05_ku_eku_order", "c05_ku_eku_two"]
 
 # allow-lists that are part of the design (DESIGN.md 5/C05)
 ALLOW_CALLS = [("w_sub_cert_aia_contains_internal_names", "time.Now"), ("w_smime_aia_contains_internal_names", "time.Now")]
@@ -76,6 +76,14 @@ def run(ctx):
         if not ok:
             failed[k] = out
     mon = common.report_monitor_violations(ctx, d)
+    # the KU/EKU consistency lint against its full model; the table is the one of the running build
+    kheader = ("From ZL Require Import Base.Corr Kernels.KuEku.\nFrom Coq Require Import ZArith List.\nImport ListNotations.\nOpen Scope Z_scope.\n"
+               "Definition tbl : table := %s.\n"
+               "Definition chkk (c : list Z * Z * Z) : bool := match c with (ekus, ku, st) => ku_eku_lint tbl ekus ku =? st end.\n" % d["data"]["ku_eku_table_coq"])
+    fk = common.corr_stream(ctx, "kueku", d["cases"].get("kueku", []), kheader, "chkk",
+                            "KuEku.ku_eku_lint (table dumped from the build) vs e_key_usage_and_extended_key_usage_inconsistent on the zoo's key-usage x extended-key-usage population")
+    if not mon:
+        common.report_disagreements(ctx, "kueku", fk, "Kernels.KuEku.ku_eku_lint", [])
     ctx.oblige("dynamic: 12 repetitions per object give identical status and details; the same call alone and after random histories agrees; exported fields of the linted object unchanged", not mon)
     # static failures without a dynamic witness
     monkeys = " ".join(v["key"] for v in mon)
